@@ -148,8 +148,17 @@ def ob_run_lengths(timeout=30):
         problems.append('run_once called %d times per iteration' % len(calls))
     else:
         a, k = calls[0]
-        if k.get('rng') is None or not (isinstance(k.get('rng'), Opaque) and k['rng'].tag == 'self.rng'):
+        # bind against the real signature of run_once: every trial must be run on the simulation's own code, noise model, decoder, error rate and generator
+        sig = [q.arg for q in m.funcs['run_once'].node.args.args]
+        bound = dict(zip(sig, a)); bound.update(k)
+        if bound.get('rng') is None or not (isinstance(bound.get('rng'), Opaque) and bound['rng'].tag == 'self.rng'):
             problems.append('run_once is not given self.rng')
+        for par, tag in (('code', 'code'), ('error_model', 'em'), ('decoder', 'dec')):
+            if not (isinstance(bound.get(par), Opaque) and bound[par].tag == tag):
+                problems.append('run_once is not given self.%s as %s' % (par, par))
+        er = bound.get('error_rate')
+        if not (isinstance(er, z3.ExprRef) and er.eq(z3.Real('p'))):
+            problems.append('run_once is not given the simulation\'s own error_rate (got %s): errors would be sampled at a different rate than the one recorded' % (er,))
     for kk, l in lists.items():
         if len(l.appended) != 1 or not (isinstance(l.appended[0][1], Opaque) and l.appended[0][1].tag == 'shot.' + kk):
             problems.append('list %r does not receive exactly the shot value of the same key (got %d appends)' % (kk, len(l.appended)))
@@ -300,6 +309,22 @@ def native_sim(code, em, dname, p, seed):
         for k in ('effective_error', 'success', 'codespace'):
             if not all(np.array_equal(x, y) for x, y in zip(ra[k], other.results[k])):
                 return 'results[%r] differ from %s' % (k, what)
+    # a decoder set up with a fixed prior rate different from the simulated one: errors must still be drawn at the SIMULATION's rate
+    from panqec.error_models import PauliErrorModel
+    seen_rates = []
+
+    class Spy(PauliErrorModel):
+        def generate(s_, code_, error_rate, rng=None):
+            seen_rates.append(float(error_rate))
+            return PauliErrorModel.generate(s_, code_, error_rate, rng)
+    spy = Spy(*em.direction)
+    dec_fixed, _ = BD.build(dname, code, p=0.05)
+    p_sim = 0.3
+    sim = DirectSimulation(code, spy, dec_fixed, p_sim, rng=np.random.default_rng(seed), verbose=False)
+    with contextlib.redirect_stdout(io.StringIO()):
+        sim.run(3)
+    if len(seen_rates) != 3 or any(r_ != p_sim for r_ in seen_rates):
+        return 'DirectSimulation(error_rate=%r) with a decoder built for rate 0.05 drew its errors at rates %s' % (p_sim, seen_rates)
     g = a.get_results()
     nf = sum(1 for s_ in ra['success'] if not s_)
     if g['n_fail'] != nf or g['n_runs'] != 7 or not np.isclose(g['p_est'], nf / 7) or not np.isclose(g['p_se'], np.sqrt(g['p_est'] * (1 - g['p_est']) / 8)):
